@@ -337,6 +337,11 @@ func Eq(a, b *Term) *Term {
 	if a.String() == b.String() {
 		return TTrue
 	}
+	if a.S == SInt {
+		if d, ok := constDiff(a, b); ok {
+			return BoolLit(d == 0)
+		}
+	}
 	if a.Lit && b.Lit {
 		// distinct literal renderings of the same sort are distinct values
 		// (ints are canonical; strings are canonical through StrLit)
@@ -376,24 +381,113 @@ func Eq(a, b *Term) *Term {
 
 func Neq(a, b *Term) *Term { return Not(Eq(a, b)) }
 
+// linear normal form: sum of coef*atom + const
+type linForm struct {
+	coef  map[string]int64
+	atom  map[string]*Term
+	konst int64
+}
+
+func linOf(t *Term, scale int64, into *linForm) bool {
+	if n, ok := t.IntVal(); ok {
+		into.konst += scale * n
+		return true
+	}
+	if !t.Sym && !t.Lit && len(t.Args) == 2 {
+		switch t.Op {
+		case "+":
+			return linOf(t.Args[0], scale, into) && linOf(t.Args[1], scale, into)
+		case "-":
+			return linOf(t.Args[0], scale, into) && linOf(t.Args[1], -scale, into)
+		case "*":
+			if n, ok := t.Args[0].IntVal(); ok {
+				return linOf(t.Args[1], scale*n, into)
+			}
+			if n, ok := t.Args[1].IntVal(); ok {
+				return linOf(t.Args[0], scale*n, into)
+			}
+		}
+	}
+	if !t.Sym && !t.Lit && t.Op == "+" && len(t.Args) > 2 {
+		for _, a := range t.Args {
+			if !linOf(a, scale, into) {
+				return false
+			}
+		}
+		return true
+	}
+	k := t.String()
+	into.coef[k] += scale
+	into.atom[k] = t
+	return true
+}
+
+func linNorm(t *Term) *linForm {
+	lf := &linForm{coef: map[string]int64{}, atom: map[string]*Term{}}
+	if !linOf(t, 1, lf) {
+		return nil
+	}
+	return lf
+}
+
+func (lf *linForm) term() *Term {
+	var keys []string
+	for k, c := range lf.coef {
+		if c != 0 {
+			keys = append(keys, k)
+		}
+	}
+	sort.Strings(keys)
+	var parts []*Term
+	for _, k := range keys {
+		c := lf.coef[k]
+		if c == 1 {
+			parts = append(parts, lf.atom[k])
+		} else {
+			parts = append(parts, &Term{Op: "*", Args: []*Term{IntLit(c), lf.atom[k]}, S: SInt})
+		}
+	}
+	if lf.konst != 0 || len(parts) == 0 {
+		parts = append(parts, IntLit(lf.konst))
+	}
+	if len(parts) == 1 {
+		return parts[0]
+	}
+	return &Term{Op: "+", Args: parts, S: SInt}
+}
+
+// constDiff returns (a-b, true) when a-b is a literal constant.
+func constDiff(a, b *Term) (int64, bool) {
+	lf := &linForm{coef: map[string]int64{}, atom: map[string]*Term{}}
+	if !linOf(a, 1, lf) || !linOf(b, -1, lf) {
+		return 0, false
+	}
+	for _, c := range lf.coef {
+		if c != 0 {
+			return 0, false
+		}
+	}
+	return lf.konst, true
+}
+
 func arith(op string, a, b *Term) *Term {
+	if op == "+" || op == "-" {
+		lf := &linForm{coef: map[string]int64{}, atom: map[string]*Term{}}
+		s := int64(1)
+		if op == "-" {
+			s = -1
+		}
+		if linOf(a, 1, lf) && linOf(b, s, lf) {
+			return lf.term()
+		}
+	}
 	if x, ok := a.IntVal(); ok {
 		if y, ok := b.IntVal(); ok {
 			switch op {
-			case "+":
-				return IntLit(x + y)
-			case "-":
-				return IntLit(x - y)
 			case "*":
 				return IntLit(x * y)
 			}
 		}
-	}
-	if y, ok := b.IntVal(); ok && y == 0 && (op == "+" || op == "-") {
-		return a
-	}
-	if x, ok := a.IntVal(); ok && x == 0 && op == "+" {
-		return b
 	}
 	if op == "*" {
 		if y, ok := b.IntVal(); ok && y == 1 {
@@ -401,6 +495,12 @@ func arith(op string, a, b *Term) *Term {
 		}
 		if x, ok := a.IntVal(); ok && x == 1 {
 			return b
+		}
+		if y, ok := b.IntVal(); ok && y == 0 {
+			return IntLit(0)
+		}
+		if x, ok := a.IntVal(); ok && x == 0 {
+			return IntLit(0)
 		}
 	}
 	return &Term{Op: op, Args: []*Term{a, b}, S: SInt}
@@ -411,17 +511,30 @@ func Sub(a, b *Term) *Term { return arith("-", a, b) }
 func Mul(a, b *Term) *Term { return arith("*", a, b) }
 
 func cmp(op string, a, b *Term) *Term {
-	if x, ok := a.IntVal(); ok {
-		if y, ok := b.IntVal(); ok {
-			switch op {
-			case "<":
-				return BoolLit(x < y)
-			case "<=":
-				return BoolLit(x <= y)
-			case ">":
-				return BoolLit(x > y)
-			case ">=":
-				return BoolLit(x >= y)
+	if d, ok := constDiff(a, b); ok {
+		switch op {
+		case "<":
+			return BoolLit(d < 0)
+		case "<=":
+			return BoolLit(d <= 0)
+		case ">":
+			return BoolLit(d > 0)
+		case ">=":
+			return BoolLit(d >= 0)
+		}
+	}
+	// str.len is non-negative: 0 <= len(x) + c (c >= 0)
+	if op == "<" || op == "<=" {
+		if lf := linNormDiff(b, a); lf != nil && lf.nonNegAtoms() {
+			if op == "<=" && lf.konst >= 0 || op == "<" && lf.konst > 0 {
+				return TTrue
+			}
+		}
+	}
+	if op == ">" || op == ">=" {
+		if lf := linNormDiff(a, b); lf != nil && lf.nonNegAtoms() {
+			if op == ">=" && lf.konst >= 0 || op == ">" && lf.konst > 0 {
+				return TTrue
 			}
 		}
 	}
@@ -447,6 +560,13 @@ func Ge(a, b *Term) *Term { return cmp(">=", a, b) }
 func StrLen(a *Term) *Term {
 	if s, ok := a.StrVal(); ok {
 		return IntLit(int64(len(s)))
+	}
+	if a.Op == "str.++" && !a.Sym {
+		sum := IntLit(0)
+		for _, p := range a.Args {
+			sum = Add(sum, StrLen(p))
+		}
+		return sum
 	}
 	return &Term{Op: "str.len", Args: []*Term{a}, S: SInt}
 }
@@ -486,6 +606,33 @@ func StrCat(xs ...*Term) *Term {
 }
 
 func StrSub(s, off, n *Term) *Term {
+	if l, ok := n.IntVal(); ok && l == 0 {
+		return StrLit("")
+	}
+	if o, ok := off.IntVal(); ok && o == 0 && Eq(n, StrLen(s)) == TTrue {
+		return s
+	}
+	// substr over a concatenation at part boundaries
+	if s.Op == "str.++" && !s.Sym {
+		pos := IntLit(0)
+		for i, p := range s.Args {
+			if Eq(pos, off) == TTrue {
+				// starts at part i: take whole parts while lengths add up
+				got := IntLit(0)
+				for j := i; j <= len(s.Args); j++ {
+					if Eq(got, n) == TTrue {
+						return StrCat(s.Args[i:j]...)
+					}
+					if j == len(s.Args) {
+						break
+					}
+					got = Add(got, StrLen(s.Args[j]))
+				}
+				break
+			}
+			pos = Add(pos, StrLen(p))
+		}
+	}
 	if v, ok := s.StrVal(); ok {
 		if o, ok := off.IntVal(); ok {
 			if l, ok := n.IntVal(); ok && o >= 0 && l >= 0 && o+l <= int64(len(v)) {
@@ -536,6 +683,29 @@ func elemSort(arr string) string {
 	rest := arr[len("(Array "):]
 	sp := strings.IndexByte(rest, ' ')
 	return rest[sp+1 : len(rest)-1]
+}
+
+func linNormDiff(a, b *Term) *linForm {
+	lf := &linForm{coef: map[string]int64{}, atom: map[string]*Term{}}
+	if !linOf(a, 1, lf) || !linOf(b, -1, lf) {
+		return nil
+	}
+	return lf
+}
+
+// nonNegAtoms: every atom with non-zero coefficient is a str.len term with a
+// positive coefficient (so the sum of atoms is >= 0).
+func (lf *linForm) nonNegAtoms() bool {
+	for k, c := range lf.coef {
+		if c == 0 {
+			continue
+		}
+		a := lf.atom[k]
+		if c < 0 || a.Op != "str.len" || a.Sym {
+			return false
+		}
+	}
+	return true
 }
 
 // ---- collecting symbols ---------------------------------------------------
